@@ -154,6 +154,17 @@ macro_rules! embed { ($reg:expr, $l:expr, $mo:ident) => {{
     ep!($reg, format!("embed34{}_point_lhs", l), 12, |a| { let m: $mo::Mat3<T> = Flat::rd(&a[..9]); let v: Vec3<T> = Flat::rd(&a[9..]); Out::of(($mo::Mat4::<T>::from(m) * Vec4::<T>::from_point(v)).flat()) });
     ep!($reg, format!("embed34{}_point_rhs", l), 12, |a| { let m: $mo::Mat3<T> = Flat::rd(&a[..9]); let v: Vec3<T> = Flat::rd(&a[9..]); Out::of(Vec4::<T>::from_point(m * v).flat()) });
     ep!($reg, format!("embed23{}_point_lhs", l), 6, |a| { let m: $mo::Mat2<T> = Flat::rd(&a[..4]); let v: Vec2<T> = Flat::rd(&a[4..]); Out::of(($mo::Mat3::<T>::from(m) * Vec3::<T>::from_point_2d(v)).flat()) });
+    ep!($reg, format!("embed24{}_point_lhs", l), 6, |a| { let m: $mo::Mat2<T> = Flat::rd(&a[..4]); let v: Vec2<T> = Flat::rd(&a[4..]); Out::of(($mo::Mat4::<T>::from(m) * Vec4::<T>::from_point(v)).flat()) });
+    ep!($reg, format!("embed24{}_point_rhs", l), 6, |a| { let m: $mo::Mat2<T> = Flat::rd(&a[..4]); let v: Vec2<T> = Flat::rd(&a[4..]); Out::of(Vec4::<T>::from_point(m * v).flat()) });
+    // growing a matrix directly or through the intermediate size gives the same matrix, and it acts on a general vector block-wise
+    ep!($reg, format!("grow24{}_lhs", l), 4, |a| { let m: $mo::Mat2<T> = Flat::rd(a); Out::of($mo::Mat4::<T>::from(m).flat()) });
+    ep!($reg, format!("grow24{}_rhs", l), 4, |a| { let m: $mo::Mat2<T> = Flat::rd(a); Out::of($mo::Mat4::<T>::from($mo::Mat3::<T>::from(m)).flat()) });
+    ep!($reg, format!("embed24{}_general_lhs", l), 8, |a| { let m: $mo::Mat2<T> = Flat::rd(&a[..4]); let v: Vec4<T> = Flat::rd(&a[4..]); Out::of(($mo::Mat4::<T>::from(m) * v).flat()) });
+    ep!($reg, format!("embed24{}_general_rhs", l), 8, |a| { let m: $mo::Mat2<T> = Flat::rd(&a[..4]); let v: Vec4<T> = Flat::rd(&a[4..]); let r = m * Vec2::<T>::from(v); Out::of(vec![r.x, r.y, v.z, v.w]) });
+    ep!($reg, format!("embed34{}_general_lhs", l), 13, |a| { let m: $mo::Mat3<T> = Flat::rd(&a[..9]); let v: Vec4<T> = Flat::rd(&a[9..]); Out::of(($mo::Mat4::<T>::from(m) * v).flat()) });
+    ep!($reg, format!("embed34{}_general_rhs", l), 13, |a| { let m: $mo::Mat3<T> = Flat::rd(&a[..9]); let v: Vec4<T> = Flat::rd(&a[9..]); let r = m * Vec3::<T>::from(v); Out::of(vec![r.x, r.y, r.z, v.w]) });
+    ep!($reg, format!("embed23{}_general_lhs", l), 7, |a| { let m: $mo::Mat2<T> = Flat::rd(&a[..4]); let v: Vec3<T> = Flat::rd(&a[4..]); Out::of(($mo::Mat3::<T>::from(m) * v).flat()) });
+    ep!($reg, format!("embed23{}_general_rhs", l), 7, |a| { let m: $mo::Mat2<T> = Flat::rd(&a[..4]); let v: Vec3<T> = Flat::rd(&a[4..]); let r = m * Vec2::<T>::from(v); Out::of(vec![r.x, r.y, v.z]) });
     ep!($reg, format!("embed23{}_point_rhs", l), 6, |a| { let m: $mo::Mat2<T> = Flat::rd(&a[..4]); let v: Vec2<T> = Flat::rd(&a[4..]); Out::of(Vec3::<T>::from_point_2d(m * v).flat()) });
 }}; }
 fn reg_embed(reg: &mut Reg) { embed!(reg, "r", rm); embed!(reg, "c", cm); }
